@@ -448,8 +448,6 @@ def family(seed: int, nrandom: int) -> list:
         g = rand_grammar(rng)
         # cut as last item or directly repeated is pointless; cut inside lookahead is rejected by pegen
         if wellformed(g) and set_leaders(g) and not _bad_cut(g) and not opt_of_lookahead(g):
-            if single_item_action_group(g) and rng.random() < 0.9:
-                continue  # keep a few: they document the known finding
             out.append(g)
     return out
 
